@@ -1,5 +1,7 @@
 //! usim — deterministic simulator with fault injection for umya-spreadsheet.
 mod c13;
+#[cfg(umya_verif_sched)]
+mod c16;
 mod crypto;
 mod decode;
 mod engine;
@@ -290,10 +292,18 @@ fn cmd_minimise(args: &[String], scratch: &str) -> i32 {
         if t0.elapsed().as_secs() > 90 {
             return false;
         }
-        let o = execute_case(c, scratch);
+        let o = execute_case(&engines::prepare_candidate(c), scratch);
         o.verdicts.iter().any(|v| v.key() == key)
     });
-    // verify the minimised trace twice
+    // pin what failed (e.g. the schedule found), then verify the minimised trace twice
+    let min = {
+        let o = execute_case(&engines::prepare_candidate(&min), scratch);
+        if o.verdicts.iter().any(|v| v.key() == key) {
+            engines::finalise(&min, &o)
+        } else {
+            case.clone()
+        }
+    };
     let o1 = execute_case(&min, scratch);
     let o2 = execute_case(&min, scratch);
     let v1 = o1.verdicts.iter().find(|v| v.key() == key).cloned();
